@@ -72,26 +72,22 @@ Proof.
   unfold model_start_time, model_end_time. rewrite !timestamp_formula. split; reflexivity.
 Qed.
 
-(* preselected data set: same timestamps as the full one PROVIDED the fix decision is the same *)
-Lemma preselect_timestamps_partial tm a i :
-  needs_fix tm a = needs_fix tm 0 -> model_timestamp tm a i == spec_timestamp tm (a + i).
+(* preselected data set: the fix decision no longer depends on the preselected range *)
+Lemma needs_fix_any tm a : needs_fix tm a = needs_fix tm 0.
+Proof. reflexivity. Qed.
+
+Lemma preselect_timestamp tm a i : model_timestamp tm a i == spec_timestamp tm (a + i).
 Proof.
-  intros H. unfold model_timestamp, spec_timestamp, fix_amount. rewrite H, needs_fix_0. reflexivity.
+  unfold model_timestamp, spec_timestamp, fix_amount. rewrite needs_fix_any, needs_fix_0. reflexivity.
 Qed.
 
-(* ... and without that proviso the statement is false: a capture that straddles a fix date *)
+(* before the repair the statement was false: a capture that straddles a fix date *)
 Definition straddle : timing :=
   mkTiming (inject_Z 1552607000) (inject_Z 999) 2 0 (Some (1#2)) false false.
-Lemma preselect_timestamps_refuted :
-  exists tm a i, ~ (model_timestamp tm a i == spec_timestamp tm (a + i)).
-Proof. exists straddle, 1%Z, 0%Z. vm_compute. discriminate. Qed.
-
-(* sufficient condition: both first timestamps on the same side of the applicable fix date *)
-Lemma same_side_same_fix tm a :
-  Qltb (raw_stamp tm a) (inject_Z (doc_fix_date (t_cmc2 tm) (t_cbf4k tm))) =
-  Qltb (raw_stamp tm 0) (inject_Z (doc_fix_date (t_cmc2 tm) (t_cbf4k tm))) ->
-  needs_fix tm a = needs_fix tm 0.
-Proof. unfold needs_fix. rewrite !fix_rule_table. auto. Qed.
+Lemma preselect_timestamps_refuted_before_fix :
+  exists tm a i, ~ (model_timestamp_pre tm a i == spec_timestamp tm (a + i))
+                 /\ model_timestamp tm a i == spec_timestamp tm (a + i).
+Proof. exists straddle, 1%Z, 0%Z. split; [vm_compute; discriminate|apply preselect_timestamp]. Qed.
 
 (* ---------------- spectral window ---------------- *)
 Lemma inject_Z_nonzero n : (n <> 0)%Z -> ~ inject_Z n == 0.
@@ -250,15 +246,14 @@ Proof. intros Hj. unfold slice. rewrite nth_firstn' by exact Hj. apply nth_skipn
 
 (* timestamps of the preselected set = timestamps a..b of the full set, when the fix decision agrees *)
 Lemma preselect_timestamps tm n a b j : (a <= b <= n)%nat -> (j < b - a)%nat ->
-  needs_fix tm (Z.of_nat a) = needs_fix tm 0 ->
   nth j (timestamps_pre tm a b) 0 == nth j (slice a b (timestamps_full tm n)) 0.
 Proof.
-  intros Hab Hj Hfix. rewrite nth_slice by exact Hj.
+  intros Hab Hj. rewrite nth_slice by exact Hj.
   unfold timestamps_pre, timestamps_full.
   rewrite (nth_indep _ 0 (model_timestamp tm (Z.of_nat a) 0%Z)) by (rewrite map_length, length_zrange; lia).
   rewrite (nth_indep _ 0 (model_timestamp tm 0 0%Z)) by (rewrite map_length, length_zrange; lia).
   rewrite !map_nth, !nth_zrange by lia.
-  rewrite preselect_timestamps_partial by exact Hfix.
+  rewrite preselect_timestamp.
   rewrite timestamp_formula.
   replace (Z.of_nat a + (0 + Z.of_nat j))%Z with (0 + Z.of_nat (a + j))%Z by lia. reflexivity.
 Qed.
@@ -296,5 +291,5 @@ Qed.
 
 Example nonvacuous_c17 :
   exists w', subrange (mkSpw 1284 856 8 1) 2 6 = Some w' /\ chan_freq w' 1 == chan_freq (mkSpw 1284 856 8 1) 3
-  /\ needs_fix straddle 0 = true /\ needs_fix straddle 1 = false.
+  /\ needs_fix straddle 0 = true /\ needs_fix straddle 1 = true /\ needs_fix_pre straddle 1 = false.
 Proof. eexists. split; [reflexivity|]. repeat split; vm_compute; reflexivity. Qed.
